@@ -104,3 +104,13 @@ Proof.
   rewrite !Q.
   destruct (sl_h s =? h)%N, (sl_off s =? off)%N, (sl_seg s =? seg)%N; reflexivity.
 Qed.
+
+(* ItemIterator.Next refills its queue exactly when DB.dbiter_fill does: the queue is empty and the
+   next bucket index is below the CURRENT number of buckets of the index (re-read on every call) *)
+Theorem iter_more_ok : forall (qlen next nbuckets : N),
+  go_iter_more (Z.of_N qlen) (Z.of_N next) (Z.of_N nbuckets) = ((qlen =? 0)%N && (next <? nbuckets)%N).
+Proof.
+  intros qlen next nbuckets. unfold go_iter_more, go_eqb, go_ltb. f_equal.
+  - destruct (N.eqb_spec qlen 0) as [->|Ne]; [reflexivity|apply Z.eqb_neq; lia].
+  - destruct (N.ltb_spec next nbuckets); [apply Z.ltb_lt|apply Z.ltb_ge]; lia.
+Qed.
